@@ -103,7 +103,9 @@ theorem replicate_tail_append (k g : Nat) (hk : 0 < k) :
     (List.replicate k g).tail ++ [g] = List.replicate k g := by
   cases k with
   | zero => omega
-  | succ k => simp [List.replicate_succ, List.replicate_succ']
+  | succ k =>
+    rw [List.replicate_succ, List.tail_cons, ← List.replicate_succ']
+    simp [List.replicate_succ]
 
 theorem replicate_append_one (k g : Nat) : List.replicate k g ++ [g] = List.replicate (k + 1) g := by
   simp [List.replicate_succ']
